@@ -39,6 +39,7 @@ class FakeStream(io.TextIOBase):
         self.err = err
         self.failed = False
         self._enc = encoding  # what the terminal / pipe of this process is opened with (locale, PYTHONIOENCODING)
+        self._fd = None
 
     @property
     def encoding(self):
@@ -46,6 +47,13 @@ class FakeStream(io.TextIOBase):
 
     def writable(self):
         return True
+
+    def fileno(self):
+        # a real descriptor of the simulated process (a forked child): code that re-points or inspects its standard
+        # streams at descriptor level (os.dup2, os.fstat) works on /dev/null instead of failing on the fake
+        if self._fd is None:
+            self._fd = os.open(os.devnull, os.O_WRONLY)
+        return self._fd
 
     def write(self, s):
         if self._enc != "utf-8":
@@ -416,6 +424,11 @@ def handbuilt_documents() -> list[tuple[str, dict]]:
     out.append(("every_argument_type_as_documented", doc([{"type": "GENERIC", "ops": [{"opcode": "op_a", "params": every_arg}, {"opcode": "End", "params": []}]}])))
     out.append(("position_mark_strings_as_in_example", doc([{"type": "GENERIC", "ops": [
         {"opcode": "vars", "params": [{"type": "POSITION_MARK", "value": {"name": "PositionName", "x": "10", "y": "10.5"}}, 2]}, {"opcode": "End", "params": []}]}])))
+    out.append(("position_marks_negative_and_half_tiles_as_numbers_and_strings", doc([{"type": "GENERIC", "ops": [
+        {"opcode": "vars", "params": [{"type": "POSITION_MARK", "value": {"name": "A", "x": -1.5, "y": 2.5}},
+                                      {"type": "POSITION_MARK", "value": {"name": "B", "x": "-3.5", "y": -7}},
+                                      {"type": "POSITION_MARK", "value": {"name": "C", "x": 0, "y": "-12.5"}}]},
+        {"opcode": "End", "params": []}]}])))
     out.append(("coroutines", doc([{"type": "COROUTINE", "name": "CORO_A", "ops": [{"opcode": "op_a", "params": []}, {"opcode": "Return", "params": []}]},
                                    {"type": "COROUTINE", "name": "CORO_B", "ops": [{"opcode": "op_b", "params": [1]}, {"opcode": "End", "params": []}]}])))
     out.append(("every_routine_type", doc([
